@@ -23,10 +23,11 @@ BOUNDS = {
     'quick': 'symbolic cells: 3 recipients, each 3 symbolic characters over '
              '{@ . a A b B 1} (so missing/empty domains, mixed case, '
              'duplicates occur), through domain split, recipient split and '
-             'both in either order; chain cells: every chain of <=2 policies '
+             'both in either order (4 recipients: domain split then recipient '
+             'split); chain cells: every chain of <=2 policies '
              'out of 8 (recipient split, domain split, forward with 3 rule '
              'sets, Date, Message-Id, Received, pass-through test policy) '
-             'over 4 recipient lists from a menu, Date/Message-Id present or '
+             'over 5 recipient lists from a menu, Date/Message-Id present or '
              'absent, header-less message',
     'thorough': 'symbolic recipients of 4 characters; chains of 3 policies',
 }
@@ -45,6 +46,7 @@ MENU = [
     ['a@x.com', 'a@x.com', 'postmaster', 'b@'],
     ['only@one.net'],
     ['u@list.x.com', 'v@y.org', 'x.com', 'w@Y.ORG'],
+    ['a1@one.net', 'a2@one.net', 'b1@two.net', 'b2@two.net', 'c@one.net'],
 ]
 RULES = [
     [(r'@x\.com$', '@mail.x.com', 0)],
@@ -62,6 +64,7 @@ def cells(tier):
     for chain in (['dsplit'], ['rsplit'], ['dsplit', 'rsplit'],
                   ['rsplit', 'dsplit']):
         out.append({'kind': 'sym', 'chain': chain, 'k': k})
+    out.append({'kind': 'sym', 'chain': ['dsplit', 'rsplit'], 'k': 3, 'n': 4})
     depth = 2 if tier == 'quick' else 3
     for first in POLICIES:
         out.append({'kind': 'chain', 'first': first, 'depth': depth})
@@ -131,7 +134,8 @@ def run_sym(cell):
     qc.patch_env()
     k = cell['k']
     rcpts = []
-    for i in range(3):
+    nr = cell.get('n', 3)
+    for i in range(nr):
         r = api.sstr('r%d' % i, k, 0x2e, 0x62)
         for j in range(k):
             api.assume(Or(*[r[j:j + 1] == chr(c) for c in ALPHA]))
@@ -147,7 +151,7 @@ def run_sym(cell):
     info = dict(chain=cell['chain'], n_out=len(out))
     allr = [r for e in out for r in e.recipients]
     api.observe('n_out', len(out))
-    api.prove(len(allr) == 3, 'recipient-count-changed', got=len(allr),
+    api.prove(len(allr) == nr, 'recipient-count-changed', got=len(allr),
               **info)
     for r in rcpts:
         api.prove(count_eq(allr, r) == count_eq(rcpts, r),
